@@ -6,6 +6,7 @@ package c04
 
 import (
 	"github.com/php-any/origami/data"
+	"github.com/php-any/origami/node"
 	"verif/harness/sx"
 	"verif/symx"
 )
@@ -297,4 +298,82 @@ func H_signed_literals() {
 	}
 	binds := operands(names, b.conc || heavy || shape == 3 || (shape == 2 && b.sym == "**"))
 	check(min, full, binds, "signed-literal")
+}
+
+// castFn: cast functions as registered by package std under the names the cast syntax
+// resolves at parse time ((bool)$x is a call of `bool`). Package std itself is not imported
+// (it drags the database drivers into the SSA program); what the property constrains is the
+// parse tree, which comes from the real parser.
+type castFn struct{ name string }
+
+func (f *castFn) Call(ctx data.Context) (data.GetValue, data.Control) {
+	v, _ := ctx.GetIndexValue(0)
+	switch f.name {
+	case "bool":
+		if b, ok := v.(data.AsBool); ok {
+			r, _ := b.AsBool()
+			return data.NewBoolValue(r), nil
+		}
+	case "int":
+		if b, ok := v.(data.AsInt); ok {
+			r, _ := b.AsInt()
+			return data.NewIntValue(r), nil
+		}
+	}
+	return v, nil
+}
+func (f *castFn) GetName() string { return f.name }
+func (f *castFn) GetParams() []data.GetValue {
+	return []data.GetValue{node.NewParameter(nil, "value", 0, nil, nil)}
+}
+func (f *castFn) GetVariables() []data.Variable {
+	return []data.Variable{node.NewVariable(nil, "value", 0, nil)}
+}
+
+// H_casts: a cast binds like a unary operator: `(T)$a B $c` is `((T)$a) B $c` for every
+// binary operator B (also `$a B (T)$c`, `-(T)$a`, `!(T)$a`, `(T)-$a`, `(T)!$a B $c`).
+func H_casts() {
+	sx.Builtins = []func() data.FuncStmt{
+		func() data.FuncStmt { return &castFn{"bool"} },
+		func() data.FuncStmt { return &castFn{"int"} },
+	}
+	cast := []string{"(bool)", "(int)"}[symx.Choose("cast", 2)]
+	shape := symx.Choose("shape", 5)
+	j := symx.Choose("op", len(ops))
+	b := ops[j]
+	heavy := b.level == 10 || b.level == 3 || b.level == 4 || b.level == 5 || b.level == 8
+	var min, full string
+	switch shape {
+	case 0:
+		min = cast + "$a " + b.sym + " $c"
+		full = "(" + cast + "$a) " + b.sym + " $c"
+		if b.sym == "**" { // ** is above the casts
+			full = cast + "($a ** $c)"
+		}
+	case 1:
+		min = "$a " + b.sym + " " + cast + "$c"
+		full = "$a " + b.sym + " (" + cast + "$c)"
+	case 2:
+		min = "-" + cast + "$a " + b.sym + " $c"
+		full = "(-(" + cast + "$a)) " + b.sym + " $c"
+		if b.sym == "**" {
+			full = "-(" + cast + "($a ** $c))"
+		}
+	case 3:
+		min = cast + "-$a " + b.sym + " $c"
+		full = "(" + cast + "(-$a)) " + b.sym + " $c"
+		if b.sym == "**" {
+			full = cast + "(-($a ** $c))"
+		}
+	case 4:
+		min = "!" + cast + "$a " + b.sym + " $c"
+		full = "(!(" + cast + "$a)) " + b.sym + " $c"
+		if b.sym == "**" {
+			full = "!(" + cast + "($a ** $c))"
+		}
+	}
+	// int + bool is a string concatenation in this language ("10true"): formatted symbolic numbers are opaque
+	concat := shape == 1 && b.sym == "+"
+	binds := operands([]string{"a", "c"}, b.conc || heavy || concat)
+	check(min, full, binds, "cast")
 }
